@@ -27,6 +27,9 @@ from . import result as R
 from .result import ObResult
 
 VERIF = os.path.dirname(os.path.dirname(os.path.dirname(os.path.abspath(__file__))))
+# evidence and replay files describe runs against /repo itself; a run against a scratch copy (QVERIF_REPO) writes elsewhere
+_SCRATCH = os.environ.get("QVERIF_REPO") not in (None, "", "/repo")
+OUT = os.environ.get("QVERIF_OUT") or (os.path.join(os.environ.get("QVERIF_REPO"), ".qverif_out") if _SCRATCH else VERIF)
 
 
 @dataclass
@@ -118,7 +121,7 @@ def match_finding(res, findings):
 # ---------------------------------------------------------------- main entry
 
 def write_replay(res):
-    d = os.path.join(VERIF, "replay", res.prop)
+    d = os.path.join(OUT, "replay", res.prop)
     os.makedirs(d, exist_ok=True)
     fn = re.sub(r"[^A-Za-z0-9_.-]+", "_", res.name)[:150] + ".json"
     path = os.path.join(d, fn)
@@ -127,7 +130,7 @@ def write_replay(res):
                replay=res.replay, detail=res.detail, smt=res.smt[:20000], extra=res.extra)
     with open(path, "w") as f:
         json.dump(rec, f, indent=1, default=str)
-    return os.path.relpath(path, VERIF)
+    return os.path.relpath(path, VERIF) if OUT == VERIF else path
 
 
 def check_property(prop, tier, seed):
@@ -138,6 +141,12 @@ def check_property(prop, tier, seed):
         j.prop = prop
     results = run_jobs(jobs)
     findings = load_findings()
+    # replay files of earlier runs of this property are stale once it has been re-run
+    rd = os.path.join(OUT, "replay", prop)
+    if os.path.isdir(rd):
+        for fn in os.listdir(rd):
+            if fn.endswith(".json"):
+                os.remove(os.path.join(rd, fn))
 
     counted = [r for r in results if r.status in (R.DISCHARGED, R.REFUTED, R.UNDECIDED, R.FAULT)]
     discharged = [r for r in results if r.status == R.DISCHARGED]
@@ -256,6 +265,6 @@ def write_evidence(prop, tier, seed, meta, results, discharged, refuted, undecid
     ev = dict(property_id=prop, tier=tier, seed=int(seed), level=level, coverage=cov,
               assumptions=meta.get("assumptions", []), wall_s=round(wall, 2),
               violations=len(refuted) - len(known_lines))
-    os.makedirs(os.path.join(VERIF, "evidence"), exist_ok=True)
-    with open(os.path.join(VERIF, "evidence", f"{prop}.json"), "w") as f:
+    os.makedirs(os.path.join(OUT, "evidence"), exist_ok=True)
+    with open(os.path.join(OUT, "evidence", f"{prop}.json"), "w") as f:
         json.dump(ev, f, indent=1, default=str)
